@@ -252,7 +252,7 @@ PROPS = {
         "level_note": "Proved for synchronous cleanup in a single run from an empty directory; the background cleanup thread is covered by the same final-state argument only "
                       "by the confluence theorem of the abstract protocol Bg (all interleavings, kernel-checked; it abstracts rotated files to their rank and assumes what the repaired "
                       "code guarantees: a rotated file is immutable once it has its final name, names are fresh) and by the scheduled runs (lock-step, free-running, two "
-                      "adversarial windows) that tie it to the code. The refinement Flw-directory -> Bg-ranks is proved for the pass and for a whole rotation (Props/C07BgBridge: cleanup_abs_renumber - one concrete pass without faults is Bg.pass on the abstraction of the directory; rotation_is_bg_rotate_pass - a rotation in a reachable state is Bg's rotate followed by a pass; premises IfxDistinct, RotKeysDistinct, GzOlder hold in every reachable state and in the directory the pass is called on; without them the statement is false, examples included); the global induction over n rotations (ranks are renumbered after removals) and the thread's interleavings on the concrete model are not proved; restarts + cleanup: Props/C06Cleanup (the newest files survive a restart's cleanup, the survivors are a tail, indices stay above what is on disk) + differential check. gz = tagged identity in the model, "
+                      "adversarial windows) that tie it to the code. The refinement Flw-directory -> Bg-ranks is proved for the pass and for a whole rotation (Props/C07BgBridge: cleanup_abs_renumber - one concrete pass without faults is Bg.pass on the abstraction of the directory; rotation_is_bg_rotate_pass - a rotation in a reachable state is Bg's rotate followed by a pass; premises IfxDistinct, RotKeysDistinct, GzOlder hold in every reachable state and in the directory the pass is called on; without them the statement is false, examples included); the global induction over the whole history is proved, too (Props/C07BgGlobal: history_flags_eq_syncDir_all - after ANY plain history from the empty directory, for all four namings, the compressed/plain flags and the number of the rotated files on disk are those of Bg.syncDir after as many rotations as the history performed, plus one for the file a direct naming opens first; pass_flags_congr - a pass depends on the flags and positions only, ranks are mere identifiers; hence thread_final_eq_concrete_sync_all: under EVERY schedule of the cleanup thread with that many rotations, the drained final directory of the abstract protocol has the flags and the length of the CONCRETE model's synchronous result); what remains unproved is the thread's interleavings on the concrete model itself (the tie is the abstraction + the scheduled runs), and files without a suffix in the global statement; restarts + cleanup: Props/C06Cleanup (the newest files survive a restart's cleanup, the survivors are a tail, indices stay above what is on disk) + differential check. gz = tagged identity in the model, "
                       "byte-exactness checked by decompression. One genuine defect found by these schedules and repaired (fix dfc7273: buffered tail of the rotated file lost when "
                       "the cleanup thread overtakes a rotation). Four known findings (index >= 100000, suffix sorting after 'restart', suffix-less files never compressed, "
                       "day-first custom format).",
